@@ -4,6 +4,8 @@ import SpoxModel.Props.C05
 #print axioms C05.key_used_iff
 #print axioms C05.singleton_prune_eq
 #print axioms C05.singleton_alpha
+#print axioms C05.singleton_scope_no_clash
+#print axioms C05.emit_positional
 #print axioms C05.untyped_input_no_check
 #print axioms C05.sigma_inj_on_hand
 #print axioms C05.infer_singleton
@@ -14,3 +16,6 @@ import SpoxModel.Props.C05
 #print axioms C05.stripUnk_keeps
 #print axioms C05.inferOK_accept
 #print axioms C05.inferOK_reject
+#print axioms C05.goodNames_exist
+#print axioms C05.eager_agrees_canonical
+#print axioms C05.supplemented_rejects_more
